@@ -4,6 +4,7 @@ CONSTANTS
   Modes <- ModesNegIterate
   IterateAllFields = TRUE
   SplitEverySpace = FALSE
+  CacheWidths = FALSE
   Emit = FALSE
   EmitOff = 0
 SPECIFICATION Spec
